@@ -652,6 +652,20 @@ func c01Alphabet() []c01HOp {
 		x.doc = d
 		x.refresh()
 	})
+	// packages whose PACKAGE relationship part is laid out the way other writers do: the main document is not rId1,
+	// property parts are absent or present under other ids (what a property setter adds must not disturb it)
+	for li, name := range c01RootLayoutNames {
+		li := li
+		add("open-foreign(package relationships: "+name+")", func(x *c01Env) {
+			d, errS := reopen(c01ForeignRootLayout(li))
+			if errS != "" {
+				x.note += " reopen:open-failed"
+				return
+			}
+			x.doc = d
+			x.refresh()
+		})
+	}
 	// the document built so far is used as a template: clone + substitution by the engine
 	render := func(x *c01Env, structural bool) {
 		td := document.NewTemplateData()
@@ -678,6 +692,37 @@ func c01Alphabet() []c01HOp {
 	add("template:RenderTemplateToDocument(v=hostile)", func(x *c01Env) { render(x, true) })
 	add("template:RenderToDocument(v=hostile)", func(x *c01Env) { render(x, false) })
 	return al
+}
+
+var c01RootLayoutNames = []string{"officeDocument=rId2 only", "app=rId1, officeDocument=rId3, no core", "officeDocument=R1, core=rId2, no app"}
+
+// c01ForeignRootLayout is a minimal third-party-like package with the given layout of _rels/.rels.
+func c01ForeignRootLayout(layout int) []byte {
+	p := foreign.New()
+	p.Overrides["/word/styles.xml"] = foreign.CtStyles
+	p.Add("word/styles.xml", foreign.StylesXML())
+	p.DocRels = append(p.DocRels, foreign.Rel{ID: "rId1", Type: pkgmodel.RtStyles, Target: "styles.xml"})
+	p.Add(p.DocName, foreign.DocXML("w", foreign.Para("foreign")+`<w:sectPr><w:pgSz w:w="11906" w:h="16838"/></w:sectPr>`))
+	office := foreign.NsR + "/officeDocument"
+	app := func() {
+		p.Overrides["/docProps/app.xml"] = foreign.CtApp
+		p.Add("docProps/app.xml", []byte(`<?xml version="1.0" encoding="UTF-8" standalone="yes"?>`+"\n"+`<Properties xmlns="http://schemas.openxmlformats.org/officeDocument/2006/extended-properties"><Application>Other Writer</Application></Properties>`))
+	}
+	core := func() {
+		p.Overrides["/docProps/core.xml"] = foreign.CtCore
+		p.Add("docProps/core.xml", []byte(`<?xml version="1.0" encoding="UTF-8" standalone="yes"?>`+"\n"+`<cp:coreProperties xmlns:cp="http://schemas.openxmlformats.org/package/2006/metadata/core-properties" xmlns:dc="http://purl.org/dc/elements/1.1/"><dc:title>Foreign</dc:title></cp:coreProperties>`))
+	}
+	switch layout {
+	case 0:
+		p.RootRels = []foreign.Rel{{ID: "rId2", Type: office, Target: p.DocName}}
+	case 1:
+		app()
+		p.RootRels = []foreign.Rel{{ID: "rId1", Type: foreign.RtExtended, Target: "docProps/app.xml"}, {ID: "rId3", Type: office, Target: p.DocName}}
+	default:
+		core()
+		p.RootRels = []foreign.Rel{{ID: "R1", Type: office, Target: p.DocName}, {ID: "rId2", Type: foreign.RtCore, Target: "docProps/core.xml"}}
+	}
+	return p.Bytes()
 }
 
 // c01ForeignWordLike is a third-party-like package whose content types are declared the way Word does.
